@@ -1,0 +1,22 @@
+//go:build verif
+
+package task
+
+import "sync/atomic"
+
+// VerifTrace, when set, receives one event per protocol transition of the manager:
+// (manager, event name, invocation id, value). Events named prio.begin and bg.decide are
+// emitted while prioritizedTaskStartNotifyMu is held.
+var VerifTrace func(ts *BackgroundTaskManager, ev string, id, v int64)
+
+var verifInvocationSeq int64
+
+func verifNewInvocation(_ *BackgroundTaskManager) int64 {
+	return atomic.AddInt64(&verifInvocationSeq, 1)
+}
+
+func verifTrace(ts *BackgroundTaskManager, ev string, id, v int64) {
+	if f := VerifTrace; f != nil {
+		f(ts, ev, id, v)
+	}
+}
